@@ -36,7 +36,7 @@ Q = 60000
 def instances(tier, seed):
     out = []
     cfgs = [('PIT', {'fam': 'T1', 'K': 2, 'C': 2}, ['none', 'discrete_cost', 'train_net_only']), ('PIT', {'fam': 'L1'}, ['none']),
-            ('MPS', {'fam': 'ML', 'bn': False, 'wtype': 'layer', 'w': [2, 8], 'a': [4, 8]}, ['none', 'temperature', 'temperature=1/2', 'temperature=3', 'hard', 'gumbel', 'train_net_only']),
+            ('MPS', {'fam': 'ML', 'bn': False, 'wtype': 'layer', 'w': [2, 8], 'a': [4, 8]}, ['none', 'temperature', 'temperature=1/2', 'temperature=3', 'hard', 'gumbel', 'train_net_only', 'layer_temperatures']),
             ('SuperNet', {'n': 2, 'kind': 'conv'}, ['none', 'temperature', 'hard', 'train_net_only']),
             ('SuperNet', {'n': 2, 'kind': 'conv', 'gumbel': True}, ['train_forward']),
             ('MPS', {'fam': 'ML', 'bn': False, 'wtype': 'layer', 'w': [2, 8], 'a': [4, 8], 'mps': {'disable_sampling': True}}, ['none'])]
@@ -76,6 +76,14 @@ def apply_prefix(method, w, pre, T, xin=None):
         elif op.startswith('temperature='):
             # a concrete temperature (all queries stay linear, unlike the symbolic one)
             w.update_softmax_options(temperature=float(Fraction(op.split('=')[1])))
+        elif op == 'layer_temperatures':
+            # a per-layer temperature schedule through the layers' own public method: every decision has its own temperature
+            from plinio.methods.mps.nn.module import MPSModule
+            k_ = 0
+            for lay in w.modules():
+                if isinstance(lay, MPSModule):
+                    lay.update_softmax_options(temperature=0.5 + 0.75 * k_)
+                    k_ += 1
         elif op == 'hard':
             w.update_softmax_options(hard=True)
         elif op == 'gumbel':
@@ -96,11 +104,17 @@ def apply_prefix(method, w, pre, T, xin=None):
 def symbolify(model, prefix, fresh, ex=None, sym_weights=True, conc_theta=False):
     """replace every floating parameter / buffer by a SymTensor (fresh symbolic, or holding the concrete values)"""
     syms = {}
+    shared = {}       # tensors that share their storage in the real model (one tensor registered in several places) stay ONE tensor
     for mn, mod in model.named_modules():
         for d in (mod._parameters, mod._buffers):
             for k, v in list(d.items()):
                 if v is None or not isinstance(v, torch.Tensor) or isinstance(v, SymTensor):
                     continue
+                if v.numel() > 0:
+                    akey = (v.data_ptr(), tuple(v.shape), tuple(v.stride()), v.dtype)
+                    if akey in shared:
+                        d[k] = shared[akey]
+                        continue
                 # constant buffers (precision tables, keep-alive vectors, comb matrices, calculator constants) are written once at
                 # construction and drive python control flow: they keep their values; everything a search can change is symbolic
                 mutable = (d is mod._parameters or k in ('running_mean', 'running_var', 'theta_alpha', 'temperature')) and k != 'clip_val'
@@ -149,11 +163,15 @@ def symbolify(model, prefix, fresh, ex=None, sym_weights=True, conc_theta=False)
                     if d is mod._parameters and v.requires_grad:
                         s.requires_grad_(True)          # which group is trainable is visible to the code under analysis
                     d[k] = s
+                    if v.numel() > 0:
+                        shared[akey] = s
                 else:
                     c = SymTensor.from_array(st.to_arr(v), v.dtype)
                     if d is mod._parameters and v.requires_grad:
                         c.requires_grad_(True)
                     d[k] = c
+                    if v.numel() > 0:
+                        shared[akey] = c
     return syms
 
 
